@@ -334,7 +334,25 @@ func (e *Env) indexSV(a, i SV, x *Expr) (SV, error) {
 		}
 		return SV{T: v.c.Select(a.T, i.T), GoT: et}, nil
 	}
+	if isMapSort(a.T.Sort) {
+		// Go map lookup m[k]: the stored value, or the zero value of the element type when k is absent
+		dom, val := v.c.FieldOf(a.T, 0), v.c.FieldOf(a.T, 1)
+		if i.T.Sort != dom.Sort.Key {
+			return SV{}, serr("map key sort %s does not match %s in %s", i.T.Sort.Name, dom.Sort.Key.Name, x)
+		}
+		var et types.Type
+		if a.GoT != nil {
+			if mt, ok := a.GoT.Underlying().(*types.Map); ok {
+				et = mt.Elem()
+			}
+		}
+		return SV{T: v.c.Ite(v.c.Select(dom, i.T), v.c.Select(val, i.T), v.tm.ZeroOf(val.Sort.Elem)), GoT: et}, nil
+	}
 	return SV{}, serr("cannot index %s (sort %s)", x.Args[0], a.T.Sort.Name)
+}
+
+func isMapSort(s *Sort) bool {
+	return s.Kind == KData && strings.HasPrefix(s.Name, "Map_") && len(s.Fields) == 2
 }
 
 func (e *Env) evalBin(x *Expr) (SV, error) {
@@ -596,6 +614,33 @@ func (e *Env) evalCall(x *Expr) (SV, error) {
 			return SV{}, serr("upd(array, key, value): ill-sorted in %s", x)
 		}
 		return SV{T: c.Store(a[0].T, a[1].T, a[2].T), GoT: a[0].GoT}, nil
+	case "has", "mapput", "mapdel":
+		// Go maps (value model dom/val): has(m, k) = k is a key; mapput(m, k, x) = m after m[k] = x; mapdel(m, k) = m after delete(m, k)
+		a, err := e.evalArgs(x.Args)
+		if err != nil {
+			return SV{}, err
+		}
+		want := 2
+		if x.Name == "mapput" {
+			want = 3
+		}
+		if len(a) != want || !isMapSort(a[0].T.Sort) {
+			return SV{}, serr("%s: first argument must be a map value, %d arguments expected in %s", x.Name, want, x)
+		}
+		dom, val := c.FieldOf(a[0].T, 0), c.FieldOf(a[0].T, 1)
+		if a[1].T.Sort != dom.Sort.Key {
+			return SV{}, serr("%s: key sort %s does not match %s in %s", x.Name, a[1].T.Sort.Name, dom.Sort.Key.Name, x)
+		}
+		switch x.Name {
+		case "has":
+			return SV{T: c.Select(dom, a[1].T)}, nil
+		case "mapdel":
+			return SV{T: c.Ctor(a[0].T.Sort, c.Store(dom, a[1].T, c.Bool(false)), val), GoT: a[0].GoT}, nil
+		}
+		if a[2].T.Sort != val.Sort.Elem {
+			return SV{}, serr("mapput: value sort %s does not match %s in %s", a[2].T.Sort.Name, val.Sort.Elem.Name, x)
+		}
+		return SV{T: c.Ctor(a[0].T.Sort, c.Store(dom, a[1].T, c.Bool(true)), c.Store(val, a[1].T, a[2].T)), GoT: a[0].GoT}, nil
 	case "isdyn", "dyn":
 		// isdyn(x, T): interface value x holds a value of concrete type T; dyn(x, T): that value
 		if len(x.Args) != 2 {
